@@ -3,7 +3,7 @@ from __future__ import annotations
 
 import ast
 
-from sa.model import AnalysisError, Model
+from sa.model import ClassInfo, AnalysisError, Model
 from sa.report import Report
 
 HELPERS = "gallia.services.uds.helpers"
@@ -254,7 +254,7 @@ def client_helpers_forward_config(m: Model, r: Report, rid: str) -> int:
     return n
 
 
-def request_codec_obligations(m: Model, r: Report, rid: str, tier: str, rules: tuple[str, ...] = ("R1", "R3", "R4", "R11")) -> int:
+def request_codec_obligations(m: Model, r: Report, rid: str, tier: str, rules: tuple[str, ...] = ("R1", "R3", "R4", "R11", "R13")) -> int:
     """Re-evaluates the request codec obligations of C01 (byte identity, suppress-bit routing, no raising serialiser, round-trip guard) for a property that
     depends on well-formed requests being parsed as typed requests (the virtual ECU applies its rules to the typed request; an unparsable one gets 0x13)."""
     from checks import c01 as _c01
@@ -273,6 +273,63 @@ def request_codec_obligations(m: Model, r: Report, rid: str, tier: str, rules: t
             r.check(False, rid, f"request-codec:{v['construct']}", "a well-formed request is not parsed as the typed request it is: " + v["message"][:500], loc=v["loc"])
     r.ok(rid, "request-codec", f"{n} request codec obligations hold")
     return n
+
+
+def negative_route_strict(m: Model, r: Report, rid: str) -> None:
+    """UDSResponse.parse_dynamic hands every frame starting with 0x7F to NegativeResponse.from_pdu and lets its ValueError through: a malformed negative
+    response (wrong length, unknown response code) is reported as an illegal response, never turned into an untyped 'negative' object that the client's
+    busy / pending logic does not recognise and therefore returns as the final answer."""
+    pd = m.require_function("gallia.services.uds.core.service.UDSResponse.parse_dynamic")
+    rets = [n for n in ast.walk(pd.node) if isinstance(n, ast.Return) and n.value is not None and ast.unparse(n.value).startswith("NegativeResponse.from_pdu(")]
+    in_try = [n for n in rets if any(isinstance(t, ast.Try) and t.handlers and any(n is x for b in t.body for x in ast.walk(b)) for t in ast.walk(pd.node))]
+    raw_neg = [n.lineno for n in ast.walk(pd.node) if isinstance(n, ast.Call) and ast.unparse(n.func).endswith("RawNegativeResponse")]
+    r.check(len(rets) == 1 and not in_try and not raw_neg, rid, f"{pd.qualname}#negative-route-strict",
+            f"frames starting with 0x7F: {len(rets)} direct routes to NegativeResponse.from_pdu, {len(in_try)} inside a try with handlers, raw negative fallbacks at lines {raw_neg}: "
+            "a malformed negative response must raise (MalformedResponse), not become an untyped object that ends the request as its 'final reply'", loc=pd.loc)
+
+
+def guarded_enum_coercions(m: Model, r: Report, rid: str, module_prefixes: tuple[str, ...]) -> int:
+    """A try block around an enum coercion `E(value)` states the belief that the coercion can fail; it fails with ValueError (an Enum without `_missing_`), so
+    the handlers must catch ValueError (or Exception).  Catching something else leaves the failure unhandled - in the UDS helpers that is the repr() of a
+    request / response with an unknown service id, which is evaluated inside log calls of exception handlers."""
+    n = 0
+    for f in m.functions():
+        if not f.module.name.startswith(module_prefixes):
+            continue
+        for t in ast.walk(f.node):
+            if not isinstance(t, ast.Try) or not t.handlers:
+                continue
+            for call in [c for b in t.body for c in ast.walk(b) if isinstance(c, ast.Call) and isinstance(c.func, (ast.Name, ast.Attribute)) and len(c.args) == 1 and not c.keywords]:
+                target = m.resolve_expr(f.module, call.func, f.cls)
+                if not isinstance(target, ClassInfo) or m.enum_members(target) is None or any("_missing_" in k.methods for k in m.mro(target)):
+                    continue
+                n += 1
+                caught = [ast.unparse(h.type) if h.type is not None else "<bare>" for h in t.handlers]
+                okh = any(h == "<bare>" or any(k in h for k in ("ValueError", "Exception", "BaseException")) for h in caught)
+                r.check(okh, rid, f"{f.qualname}#catches-failed-coercion:{target.name}", f"`{ast.unparse(call)}` raises ValueError for a value outside the enum, the surrounding try "
+                        f"catches only {caught}: the error escapes (e.g. from the repr() of a reply naming an unknown service id, evaluated in a log call of an exception handler)",
+                        loc=f"{f.module.relpath}:{call.lineno}")
+    return n
+
+
+def ranges_validator_accepts_stored_form(m: Model, r: Report, rid: str) -> None:
+    """`Ranges` options are stored (META.json, run_meta) as lists of ints and re-validated by the same before-validator when a run is re-created: the validator
+    hands a list of ints through unchanged and unravels only text (finite-domain evaluation for text, list of text, list of ints, empty list)."""
+    from sa import miniterp
+    f = m.require_function("gallia.command.config._process_ranges")
+    par = f.params()[0]
+    oracle = lambda call, env: "UNRAVELLED" if ast.unparse(call.func).endswith("unravel") else NotImplemented
+    bad = []
+    for val, want in (("1-3 0x10", "UNRAVELLED"), (["1-3", "0x10"], "UNRAVELLED"), ([1, 2, 3, 16], [1, 2, 3, 16]), ([7], [7])):
+        try:
+            ret, env = miniterp.run_function(f.node, {par: val}, oracle)
+            got = miniterp.eval_expr(ret.value, env, oracle) if ret is not None and ret.value is not None else None
+        except miniterp.Raised as e:
+            got = f"raises {ast.unparse(e.node.exc) if e.node.exc is not None else ''}"
+        if got != want:
+            bad.append(f"{val!r} -> {got!r}")
+    r.check(not bad, rid, f"{f.qualname}#stored-form", f"{bad}: text is unravelled, a stored list of ints is handed through unchanged (otherwise a run cannot be re-created "
+            "from its META.json / run_meta entry)", loc=f.loc)
 
 
 def sub_function_split_rule(m: Model, r: Report, rid: str) -> None:
